@@ -298,6 +298,8 @@ theorem constNoInit_append (k : DeclKind) (l1 l2 : List DE) :
     constNoInit (.decl k (l1 ++ l2)) = (constNoInit (.decl k l1) || constNoInit (.decl k l2)) := by
   cases k <;> simp [constNoInit, List.any_append]
 
+theorem earlyS_expr (e : DE) : earlyS (.expr e) = false := by simp [earlyS, constNoInit]
+
 theorem earlyS_decl (k : DeclKind) (l : List DE) : earlyS (.decl k l) = constNoInit (.decl k l) := by
   simp [earlyS]
 
@@ -500,7 +502,7 @@ theorem execL_for (H : Host) (K : Val → List Val → M Val) (w : Bool) (i : DS
 
 theorem earlyS_for_nolex (w : Bool) (i : DS) (c p : Option DE) (b : List DS) (hl : lexDeclsS i = [])
     (hc : constNoInit i = false) : earlyS (.forS w i c p b) = earlyScope [] b := by
-  simp [earlyS, hl, hc, hasDup, meets]
+  simp [earlyS_for, hl, hc, hasDup, meets]
 
 theorem varNamesL_for (w : Bool) (i : DS) (c p : Option DE) (b rest : List DS) :
     varNamesL (.forS w i c p b :: rest) = forInitNames i ++ varNamesL b ++ varNamesL rest := by
@@ -552,7 +554,7 @@ theorem forInitExprEmpty_eq (e : DE) (w : Bool) (c p : Option DE) (b rest : List
     simp [forInitNames]
   fns := by simp [fnDeclsL]
   early := by
-    simp only [earlyItems, earlyS, constNoInit, Bool.false_or,
+    simp only [earlyItems, earlyS_expr, constNoInit, Bool.false_or,
       earlyS_for_nolex w .empty c p b rfl rfl, earlyS_for_nolex w (.expr e) c p b rfl rfl]
   frag := by simp [fragL, fragS]
   anyFn := by simp [isFn]
@@ -634,7 +636,7 @@ theorem forInitAssign_eq (items : List DE) (x : String) (a : Ann) (e : DE) (w : 
     grind
   fns := by simp [fnDeclsL]
   early := by
-    simp only [earlyItems, earlyS, constNoInit, Bool.false_or,
+    simp only [earlyItems, earlyS_expr, constNoInit, Bool.false_or,
       earlyS_for_nolex w (.decl .var items) c p b rfl rfl, earlyS_for_nolex w (.decl .var _) c p b rfl rfl]
   frag := by simp [fragL, fragS]
   anyFn := by simp [isFn]
@@ -658,7 +660,7 @@ theorem forInitAssignHoisted_eq (items : List DE) (x : String) (a : Ann) (e : DE
     simp [forInitNames]
   fns := by simp [fnDeclsL]
   early := by
-    simp only [earlyItems, earlyS, constNoInit, Bool.false_or,
+    simp only [earlyItems, earlyS_expr, constNoInit, Bool.false_or,
       earlyS_for_nolex w (.decl .hoisted items) c p b rfl rfl, earlyS_for_nolex w (.decl .hoisted _) c p b rfl rfl]
   frag := by simp [fragL, fragS]
   anyFn := by simp [isFn]
